@@ -194,7 +194,7 @@ func runReplays(pg *Program, pkgDir string, specs []*HarnessSpec, jobs []*replay
 	ovData, _ := json.Marshal(ov)
 	ovFile := filepath.Join(tmp, "overlay.json")
 	os.WriteFile(ovFile, ovData, 0o644)
-	cmd := exec.Command("go", "test", "-vet=off", "-count=1", "-gcflags=all=-l", "-overlay", ovFile, "-run", "^TestVerifReplay$", "-v", "./"+pkgDir)
+	cmd := exec.Command("go", "test", "-vet=off", "-count=1", "-gcflags=all=-l", "-timeout", "180s", "-overlay", ovFile, "-run", "^TestVerifReplay$", "-v", "./"+pkgDir)
 	cmd.Dir = RepoDir
 	cmd.Env = append(os.Environ(), "GOFLAGS=-mod=mod", "GOPROXY=off", "GOSUMDB=off", "GOTOOLCHAIN=local", "VERIF_REPLAY_DIR="+replayDir)
 	out, err := cmd.CombinedOutput()
